@@ -17,11 +17,14 @@ instance instDecEqExcept {ε α : Type} [DecidableEq ε] [DecidableEq α] : Deci
   | .ok _, .error _ => isFalse (by intro h; cases h)
   | .error _, .ok _ => isFalse (by intro h; cases h)
 
+/-- The loop of `unsigned_varint::encode::*` with explicit fuel (structural, so that it computes in
+the kernel); `n` itself is always enough fuel. -/
+def uviEncodeAux : Nat → Nat → Bytes
+  | 0, n => [n]
+  | fuel + 1, n => if n < 128 then [n] else (n % 128 + 128) :: uviEncodeAux fuel (n / 128)
+
 /-- `unsigned_varint::encode::{u16,usize}` (identical for every width on values that fit). -/
-def uviEncode (n : Nat) : Bytes :=
-  if h : n < 128 then [n] else (n % 128 + 128) :: uviEncode (n / 128)
-termination_by n
-decreasing_by omega
+def uviEncode (n : Nat) : Bytes := uviEncodeAux n n
 
 inductive UviErr | insufficient | overflow | notMinimal
   deriving DecidableEq, Repr
